@@ -13,7 +13,7 @@ STEPS = {"cmp_ok": "@TestType Absolute;\n@Precision 0.5;\n@Test 'a.res' 'b.res' 
          "cmd_ok": "@Command 'sh ok.sh';\n", "cmd_fail": "@Command 'sh fail.sh';\n"}
 
 
-def make_set(d, rnd, n, with_commands):
+def make_set(d, rnd, n, with_commands, small=False):
     os.makedirs(d)
     open(os.path.join(d, "a.res"), "w").write("c1\n1.0\n2.0\n")
     open(os.path.join(d, "b.res"), "w").write("c1\n1.25\n2.0\n")
@@ -24,7 +24,7 @@ def make_set(d, rnd, n, with_commands):
     kinds = list(STEPS) if with_commands else ["cmp_ok", "cmp_fail"]
     for i in range(n):
         name = "t%02d" % i
-        steps = [rnd.choice(kinds) for _ in range(rnd.randint(1, 12 if not with_commands else 3))]
+        steps = [rnd.choice(kinds) for _ in range(rnd.randint(1, (3 if small else 12) if not with_commands else 3))]
         if rnd.random() < 0.5:
             steps = [s.replace("fail", "ok") for s in steps]
         open(os.path.join(d, name + ".check"), "w").write("".join(STEPS[s] for s in steps))
@@ -70,16 +70,24 @@ def run(ctx):
     #        checks, jobs, commands?
     plan = [(1, 1, False), (6, 1, True), (12, 4, False), (24, 16, False), (16, 8, False), (8, 2, False)]
     plan += [(6, 2, True), (8, 4, True)]            # with @Command: ProcessManager from several threads (see C30's known finding)
+    # many small blocks with every write(2) / writev(2) on the log delayed by 20 ms (strace fault injection): widens the
+    # window in which an unsynchronised writer meets the flush of another one
+    slow = {len(plan): True, len(plan) + 1: True}
+    plan += [(96, 4, False), (64, 16, False)]
     if ctx.thorough:
         plan += [(rnd.randint(2, 40), rnd.choice([1, 2, 3, 8, 16]), False) for _ in range(20)] + [(10, 8, True), (12, 16, True)]
     ntr = nev = 0
     samples = []
     for i, (n, j, cmds) in enumerate(plan):
         d = ctx.path("set-%d" % i)
-        allc, fails = make_set(d, rnd, n, cmds)
+        allc, fails = make_set(d, rnd, n, cmds, small=bool(slow.get(i)))
         env = {"TFEL_VERIF_PERTURB": str(ctx.seed * 100 + i)}
-        r = ctx.run(["timeout", "-s", "KILL", "45", exe, "-j", str(j), "--discard-jobs-limit=true"], cwd=d, env=env, timeout=150)
-        desc = {"checks": n, "jobs": j, "commands": cmds}
+        cmd = [exe, "-j", str(j), "--discard-jobs-limit=true"]
+        if slow.get(i):
+            cmd = ["strace", "-f", "-o", "/dev/null", "-P", "tfel-check.log", "-e", "trace=write,writev",
+                   "-e", "inject=write,writev:delay_enter=20000"] + cmd
+        r = ctx.run(["timeout", "-s", "KILL", "90" if slow.get(i) else "45"] + cmd, cwd=d, env=env, timeout=150)
+        desc = {"checks": n, "jobs": j, "commands": cmds, "slow_log_writes": bool(slow.get(i))}
         if r.returncode not in (0, 1):
             kind = "hang" if r.returncode in (137, -9, 124) else "crash(%d)" % r.returncode
             ctx.violation("impl:%s:%s" % (kind.split("(")[0], "commands-j%s" % ("1" if j == 1 else "N") if cmds else "comparisons"),
